@@ -644,7 +644,13 @@ func checkMemoryPredicate(c *Ctx, p *Prog, rule string) {
 					if isElem(base) {
 						return "elemOff"
 					}
+					if pr, ok := stripConv(base).(*ssa.Parameter); ok && bd[pr] == "elem" {
+						return "elemOff" // a helper given the element
+					}
 					return "other"
+				}
+				if isElem(v) {
+					return "elem"
 				}
 				if isNamed(v.Type(), PkgBus, "Offset") {
 					return "from"
